@@ -57,6 +57,14 @@ class MDPPEnv(DPPEnv):
         if generator is None:
             generator = MDPPGenerator(**generator_params)
         self.generator = generator
+        # DPPEnv.__init__ took these from a default DPPGenerator: use the MDPP generator's own
+        self.max_decaps = self.generator.max_decaps
+        self.size = self.generator.size
+        self.raw_pdn = self.generator.raw_pdn
+        self.decap = self.generator.decap
+        self.freq = self.generator.freq
+        self.num_freq = self.generator.num_freq
+        self.data_dir = self.generator.data_dir
 
         assert reward_type in [
             "minmax",
